@@ -165,15 +165,23 @@ def install_wrappers():
         ev("c_retry", p=batch.tp.partition, bid=bid_of(batch))
         return o_re(self, batch)
     ACC._pop_batch, ACC.reenqueue = _pop_batch, reenqueue
+    # the single transactional task: which one the sender picks, and when its body ends
+    import functools
+    for nm in ("_do_add_partitions_to_txn", "_do_add_offsets_to_txn", "_do_txn_offset_commit", "_do_txn_commit"):
+        def mkw(orig, nm=nm):
+            @functools.wraps(orig)
+            async def w(self, *a, **kw):
+                try:
+                    return await orig(self, *a, **kw)
+                finally:
+                    ev("c_txn_done", task=nm)
+            return w
+        setattr(SN.Sender, nm, mkw(getattr(SN.Sender, nm)))
     o_pick = SN.Sender._maybe_do_transactional_request
 
     def pick(self):
         t = o_pick(self)
-        kind = None
-        if t is not None:
-            kind = t.get_coro().__name__
-            t.add_done_callback(lambda _t, k=kind: ev("c_txn_done", kind=k))
-        ev("c_txn_pick", kind=kind)
+        ev("c_txn_pick", task=t.get_coro().__name__ if t is not None else None)
         return t
     SN.Sender._maybe_do_transactional_request = pick
     o_flush = ACC.flush_for_commit
